@@ -1,0 +1,25 @@
+//go:build verif
+
+package verifapi
+
+import (
+	"image"
+
+	"github.com/deepteams/webp/internal/lossy"
+)
+
+// Re-exports for the pixel import of the lossy encoder (property C19).
+
+// ImportPlanes is lossy.VerifImportPlanes: the padded Y/U/V planes that
+// lossy.NewEncoder / importImage compute from img.
+func ImportPlanes(img image.Image, cfg lossy.EncodeConfig) (y, u, v []byte, yStride, uvStride, mbW, mbH int) {
+	return lossy.VerifImportPlanes(img, cfg)
+}
+
+// ImportHasAlpha is lossy.imageHasAlpha.
+func ImportHasAlpha(img image.Image) bool { return lossy.VerifImportHasAlpha(img) }
+
+// ImportUVFromPlanar is lossy.VerifImportUVFromPlanar.
+func ImportUVFromPlanar(planar []byte, padW, pairs int, dithering float32, skipDraws int) (u, v []byte) {
+	return lossy.VerifImportUVFromPlanar(planar, padW, pairs, dithering, skipDraws)
+}
